@@ -119,7 +119,10 @@ func (d *c09) runCell(idx uint64, c cell, seed uint64, desc string) (caseOutcome
 		// Subsequent operation on the connection: must complete, whatever
 		// state the disturbance left the connection in.
 		if c.kind != fkNone || c.action != actNone {
+			// (Resolve first: calling a promised client while its promise
+			// resolves is capnp-core territory, property C11, not C09.)
 			bc := nb.bootstrap(sc.ctx)
+			nb.resolve(sc.ctx, bc)
 			nb.call("subsequent-echo", sc.ctx, bc, mEcho, 99, nil, false)
 			nb.release("subsequent-bootstrap", bc)
 		}
@@ -174,6 +177,7 @@ func (d *c09) inject(sc *sctx, a closeAction) {
 		go func() {
 			defer wg.Done()
 			bc := b.bootstrap(sc.ctx)
+			b.resolve(sc.ctx, bc)
 			b.call("concurrent-with-close", sc.ctx, bc, mEcho, 5, nil, false)
 			b.release("concurrent-bootstrap", bc)
 		}()
@@ -282,6 +286,22 @@ func runC09(cfg *common.Config, rec *common.Recorder) {
 		rec.Finish()
 		return
 	}
+	if only := extraStr(cfg.Extra, "only"); only != "" {
+		// debugging aid: run one named cell (all repetitions map to it)
+		var g2 []cell
+		for _, c := range grid {
+			if c.String() == only {
+				g2 = append(g2, c)
+			}
+		}
+		if len(g2) == 0 {
+			rec.Inconclusive("no such cell: " + only)
+			rec.Finish()
+			return
+		}
+		grid = g2
+		total = 0
+	}
 	G := uint64(len(grid))
 	rec.Max("max_grid_size_"+cfg.Mode, int64(G))
 	rec.Max("max_neg_grid_size_"+cfg.Mode, int64(1000000-G))
@@ -375,6 +395,15 @@ func extraInt(extra, key string, def int) int {
 		}
 	}
 	return def
+}
+
+func extraStr(extra, key string) string {
+	for _, kv := range splitComma(extra) {
+		if len(kv) > len(key) && kv[:len(key)] == key && kv[len(key)] == '=' {
+			return kv[len(key)+1:]
+		}
+	}
+	return ""
 }
 
 func splitComma(s string) []string {
